@@ -20,7 +20,10 @@ def check(chk, repo):
     chk.explanation = EXPLANATION
     rep = Rep(chk, repo)
     total = 0
+    from ..common import prototypes_searched
     for cls in ("SupervisedOPF", "SemiSupervisedOPF"):
+        if not prototypes_searched(rep, repo, cls):
+            return
         w, comps = competitions_of(repo, cls, "fit", 2)
         total += len(comps)
         prim, ift = comps[0], comps[-1]
